@@ -330,6 +330,45 @@ func propC12(a *Analysis, r *Registry) {
 			b.EqRF("B-C12 derivative", "epanechnikov/d cdf = pdf", b.pos(pf), pin, d, "inside the support d/dx cdf(x) ≡ pdf(x)")
 		})
 	}
+	// series: the unbounded sum f(0)+f(1)+… until adding a term no longer changes it
+	if fn := b.Fn(rB, "stats.series"); fn != nil {
+		b.guard(rB, "stats.series", func() {
+			fc := X.FCFor(fn)
+			env := X.EnvFor(fn, "f")
+			rv := fc.RetVal(0)
+			from := rv
+			if ph, ok := X.phiOf[rv.SingleAtom().ID]; ok {
+				if ifi, ok := ph.Block().Instrs[len(ph.Block().Instrs)-1].(*ssa.If); ok {
+					from = S.MakeFn("tuple", rv, fc.Val(ifi.Cond))
+				}
+			}
+			vars := b.LoopSystem(rB, "stats.series/recurrences", b.pos(fn), fc, from, env, []recSpec{{"y", "0", "y+f(n)"}, {"yp", "1", "y"}, {"n", "0", "n+1"}})
+			if vars == nil {
+				return
+			}
+			for k, v := range vars {
+				env.Set(k, v, nil)
+			}
+			b.EqRF(rB, "stats.series/result", b.pos(fn), rv, vars["y"], "returns the accumulated sum")
+			hdr := X.phiOf[vars["y"].SingleAtom().ID].Block()
+			var body *ssa.BasicBlock
+			fc.Ctx.Instrs(func(in ssa.Instruction) {
+				if c, ok := in.(*ssa.Call); ok && c.Call.StaticCallee() == nil && !c.Call.IsInvoke() {
+					if _, isB := c.Call.Value.(*ssa.Builtin); !isB {
+						body = c.Block()
+					}
+				}
+			})
+			if body == nil {
+				r.Fail(rB, "stats.series/runs-until-converged", b.pos(fn), "the loop does not evaluate f")
+			} else {
+				b.Eq(rB, "stats.series/runs-until-converged", b.pos(fn), fc.ReachCondFrom(hdr, body), env, "y!=yp")
+			}
+			if len(fc.Ctx.Returns()) != 1 {
+				r.Fail(rB, "stats.series/single-exit", b.pos(fn), "the sum can be cut short by another exit")
+			}
+		})
+	}
 	// bandwidth rules
 	b.Formula(rB, "stats.BandwidthSilverman", "stats.BandwidthSilverman", []string{"data"}, nil, 0, "1.06*data.StdDev()*pow(data.Weight(), -0.2)", nil)
 	b.Formula(rB, "stats.BandwidthScott", "stats.BandwidthScott", []string{"data"},
